@@ -8,7 +8,7 @@ args = sys.argv[1:]
 tier = "quick"
 if args and args[0] == "--tier":
     tier = args[1]; args = args[2:]
-ids = args or sorted(os.path.basename(d) for d in glob.glob("/verif/seeded/C*_m*"))
+ids = args or sorted(os.path.basename(d) for d in glob.glob("/verif/seeded/C*m[0-9]"))
 os.environ.setdefault("SEED_JOBS", "6")
 def one(i):
     d = "/verif/seeded/" + i
